@@ -518,7 +518,7 @@ def stat_call(F, what, target, st, ns, nc, burn, steps, init, ow):
 
 def spinconv_case(ctx, case):
     """`to_01` next to `to_pm1` (observables/utils.py): entry-wise `(x + 1) / 2` and `2 x - 1` (Observables.to01 / toPm1), inverse to each
-    other (C13_to01_toPm1, C13_toPm1_to01).  Not part of C13's text: aux level; the round trip on the conventions' own values is exact."""
+    other (C13_to01_toPm1, C13_toPm1_to01).  Not part of C13's text: recorded only (ctx.info, audit 3); the round trip on the conventions' own values is exact."""
     from qucumber.observables import utils as U
     xs, dt = case["xs"], case["dtype"]
     if dt == "i64" and any(x != int(x) for x in xs):
@@ -532,18 +532,23 @@ def spinconv_case(ctx, case):
     before = t.clone()
     got01 = U.to_01(t)
     gotpm = U.to_pm1(t)
-    ctx.oracle("to_01 / to_pm1 leave their argument unchanged", bool(torch.equal(t, before)), case, sig="spinconv/no-mutation", theorem="C13_to01_toPm1")
+    # audit 3 (B12): to_01 / to_pm1 are helpers C13's text does not name (to_01 is never called by the library): recorded only, no verdict
+    ctx.info("spinconv/no-mutation: to_01 / to_pm1 leave their argument unchanged", bool(torch.equal(t, before)), True)
     flat = [float(v) for v in t.reshape(-1).to(torch.double).tolist()]
     if case["kind"] in ("pm1", "01"):
         rt = U.to_pm1(U.to_01(t)) if case["kind"] == "pm1" else U.to_01(U.to_pm1(t))
-        ctx.point("round trip through the other spin convention", "aux", [float(v) for v in rt.reshape(-1).tolist()], flat, case, exact=True,
-                  theorem="C13_to01_toPm1, C13_toPm1_to01", sig="spinconv/round-trip")
+        # audit 3 (B12): the spin-convention helpers are outside C13's statement -> info, never an alarm
+        ctx.info("spinconv/round-trip: round trip through the other spin convention", [float(v) for v in rt.reshape(-1).tolist()], flat)
     if ctx.driver is not None:
         m = ctx.driver.call("c13.spinconv", xs=bits(flat))
-        tol = {} if dt != "f32" else {"rtol": 1e-6, "atol": 1e-6}
-        ctx.point("to_01", "aux", [float(v) for v in got01.reshape(-1).tolist()], unbits(m["to_01"]), case, theorem="C13_to01_toPm1", sig="spinconv/to_01", **tol)
-        ctx.point("to_pm1", "aux", [float(v) for v in gotpm.reshape(-1).tolist()], unbits(m["to_pm1"]), case, theorem="C13_toPm1_to01", sig="spinconv/to_pm1", **tol)
-        ctx.point("model: to_01(to_pm1(x)) == x", "aux", flat, unbits(m["to_01_to_pm1"]), case, theorem="C13_to01_toPm1", sig="spinconv/model-inverse")
+        tol = 1e-6 if dt == "f32" else 1e-12
+
+        def close(a, b):
+            return len(a) == len(b) and all(abs(x - y) <= tol * (1.0 + abs(y)) for x, y in zip(a, b))
+        # audit 3 (B12): to_01 / to_pm1 values against the Lean lemmas C13_to01_* - helpers not named by C13 (lemmas only): info
+        ctx.info("spinconv/to_01", close([float(v) for v in got01.reshape(-1).tolist()], unbits(m["to_01"])), True)
+        ctx.info("spinconv/to_pm1", close([float(v) for v in gotpm.reshape(-1).tolist()], unbits(m["to_pm1"])), True)
+        ctx.info("spinconv/model-inverse: model to_01(to_pm1(x)) == x", close(flat, unbits(m["to_01_to_pm1"])), True)
 
 
 # names of the observables = the keys of System's dictionaries (extension round 2): the model's names (Observables.Builtin.names,
@@ -769,13 +774,13 @@ def stats_case(ctx, case):
                     ctx.point("dictionary keys (as a set)", "property", sorted(sys_keys), sorted(mres["names"]), case,
                               exact=True, theorem=THEOREMS["keys"], sig="system/keys")
                     # extension round 2: the keys ARE the observables' names (C13_system_keys_of_names), the names being the model's
-                    # (built-in constants / composite strings, C16_name_of_build); order of first occurrence at aux level
+                    # (built-in constants / composite strings, C16_name_of_build); names and order of first occurrence recorded only (ctx.info, audit 3)
                     mn = model_names(ctx, case, obs)
-                    ctx.point("names of the observables given to System (the keys of its results)", "property",
-                              [nm for nm, x in zip(names, mn) if x is not None], [x for x in mn if x is not None], case, exact=True,
-                              theorem="C13_system_keys_of_names, C16_name_of_build", sig="system/names")
-                    ctx.point("dictionary keys in order of first occurrence", "aux", sys_keys, mres["names"], case, exact=True,
-                              theorem="C13_system_keys_of_names", sig="system/key-order")
+                    # audit 3 (B1): what an observable is CALLED is not constrained by C13 (nor C16/C17): recorded only
+                    ctx.info("system/names: names of the observables given to System vs the model's names",
+                             [nm for nm, x in zip(names, mn) if x is not None], [x for x in mn if x is not None])
+                    # audit 3 (B8): the ORDER of the dictionary's keys is not constrained by C13: recorded only
+                    ctx.info("system/key-order: dictionary keys in order of first occurrence", sys_keys, mres["names"])
                     # names given several times with DIFFERENT values: which of them survives is not constrained by the property (the merge
                     # itself is the finding reported above) - those entries are not compared with the model
                     # (the entry is compared with the model's one-pass statistics of the observable it was found to hold, and with the
